@@ -67,6 +67,15 @@ func runRPC(t *testing.T, rc *core.RunCtx, prop string) {
 	}
 	mode := []string{"schema", "noschema", "allow", "skip", "shallow", "mutations"}[tp.Draw(6)]
 	noSchema := mode == "noschema" || ((mode == "allow" || mode == "skip") && tp.Draw(2) == 0)
+	// which list (if any) restricts the synchronised states; per-mutation sync
+	// may be combined with one
+	listKind := ""
+	switch mode {
+	case "allow", "skip":
+		listKind = mode
+	case "mutations":
+		listKind = []string{"", "", "allow", "skip"}[tp.Draw(4)]
+	}
 	var subset am.S
 	for _, u := range user {
 		if tp.Draw(2) == 0 {
@@ -127,7 +136,7 @@ func runRPC(t *testing.T, rc *core.RunCtx, prop string) {
 	if tp.Draw(4) == 0 {
 		sites["rpc.push.busy"] = 3
 	}
-	rc.Desc = fmt.Sprintf("user=%v mode=%s noschema=%v subset=%v push=%v pre=%v local=%v remote=%v faults=%v sites=%v", uschema, mode, noSchema, subset, iv, pops, lops, rops, faults, sites)
+	rc.Desc = fmt.Sprintf("user=%v mode=%s list=%s noschema=%v subset=%v push=%v pre=%v local=%v remote=%v faults=%v sites=%v", uschema, mode, listKind, noSchema, subset, iv, pops, lops, rops, faults, sites)
 
 	core.Bubble(t, rc, func(s *core.Sim) {
 		s.Horizon = 2 * time.Second
@@ -166,6 +175,12 @@ func runRPC(t *testing.T, rc *core.RunCtx, prop string) {
 			copts.SyncShallowClocks = true
 		case "mutations":
 			copts.SyncMutations = true
+			switch listKind {
+			case "allow":
+				copts.AllowedStates = subset
+			case "skip":
+				copts.SkippedStates = subset
+			}
 		}
 		shallow := copts.SyncShallowClocks
 		cli, err := arpc.NewClient(ctx, "localhost:7000", "cli", cschema, copts)
@@ -238,10 +253,10 @@ func runRPC(t *testing.T, rc *core.RunCtx, prop string) {
 				if !has(user, n) {
 					continue
 				}
-				if mode == "allow" && !has(subset, n) {
+				if listKind == "allow" && !has(subset, n) {
 					continue
 				}
-				if mode == "skip" && has(subset, n) {
+				if listKind == "skip" && has(subset, n) {
 					continue
 				}
 				tracked = append(tracked, n)
